@@ -50,6 +50,8 @@ def build(tier="quick", seed=0):
         paths, intact = [], []
         for si, spec in enumerate(layout):
             path = f"/abs/src{si}.records" + (".gz" if spec.endswith("~") else "")
+            foreign = spec.endswith("^")  # a frame in the middle that is well-formed msgpack but not of this format (a foreign extension type): the decoder raises a plain Exception
+            spec = spec.rstrip("^")
             paths.append(path)
             if spec == "missing":
                 intact.append([])
@@ -73,6 +75,15 @@ def build(tier="quick", seed=0):
                 it.call(it.getattr_(w, "write"), [r], {})
                 recs.append(r)
             content = fp.content()
+            if foreign:
+                import struct as _struct
+
+                from spec import msgpack_spec as _M
+
+                body = _M.encode(("ext", 5, b"not ours"))
+                keep = 2 + 2 * 2  # header (2 writes), then descriptor and first record (2 writes each): what follows the foreign frame is not reached
+                content = content[:keep] + [_struct.pack(">I", len(body)), body] + content[keep:]
+                recs = recs[:1]
             if spec.endswith("!"):  # truncated inside the body of the last record frame
                 last = content[-1]
                 cut = z3.Int(f"cut{si}")
@@ -258,7 +269,7 @@ def build(tier="quick", seed=0):
     pack.case_analyses.append(f"{len(OPTS)} option combinations (skip, count incl. 0, selectors on both engines, -F, -X, metadata overrides, --multi-timestamp and their combination)")
 
     # ------------------------------------------------------------------ isolation of bad sources at every position
-    BAD = ["missing", "garbage", "AB!", "AB~"]
+    BAD = ["missing", "garbage", "AB!", "AB~", "AA^"]
     for bad in BAD:
         for pos in range(3):
             layout = ["AB", "BA"]
